@@ -85,6 +85,12 @@ def s_ds(tier, seed, out):
                 for op in ("put:", "fput:", "push:"):
                     out.write("ds\t" + " ".join(pre + [op + arg]) + "\n")
                     n += 1
+    # positions / shifts / paddings of every big size mined from the source (srcmine.py; nothing on the unchanged tree)
+    for big in _srcmine.sizes(3001, 2200000):
+        for pre in ([], ["put:12"]):
+            out.write("ds\t" + " ".join(pre + ["at:7:%d" % big]) + "\n")
+            out.write("ds\t" + " ".join(pre + ["sh:%d" % big, "put:3"]) + "\n")
+            n += 2
     # sizes past 16-bit limits, one operation each (the answer carries the whole rendering)
     for big in (65535, 65536, 70000):
         out.write("ds\tsh:%d\n" % big)
@@ -221,6 +227,10 @@ ORDINARY = {
     "de": ["Katze", "Haus", "der", "ich", "habe", "eine", "Spur"] + _ODD + ["nullundnull", "nullnull"],
     "nl": ["kat", "huis", "de", "ik", "heb"] + _ODD + ["nulennul", "nulnul"],
 }
+# words of scripts without case: alphabetic, never a number word, never a linking word in these seven languages
+CASELESS = ["\u6771\u4eac", "\u5927\u962a", "\u304b\u306a", "\ud55c\uad6d", "\u05e9\u05dc\u05d5\u05dd", "\u0633\u0644\u0627\u0645", "\u0928\u092e\u0938\u094d\u0924\u0947", "\u0e44\u0e17\u0e22", "\u4e00"]
+for _l in ORDINARY:
+    ORDINARY[_l] += CASELESS
 # another language's decimal-separator word is an ordinary word (the facade must not know it)
 # words with an apostrophe (elisions, clitics, possessives): one token each, never the bare article
 _APOS = {"en": ["it's", "dog's", "o'clock"], "fr": ["l'eau", "l'ami", "d'accord", "qu'il", "aujourd'hui"], "es": ["d'Artagnan"],
